@@ -25,37 +25,49 @@ Section All.
     unfold dnsResolve, spec_resolve4. destruct (assoc a (e_dns4 e)) as [[|ip r]|]; reflexivity.
   Qed.
 
+  Hypothesis Hmyip : my_ip_default = b "127.0.0.1".
+  Hypothesis Hver : client_version = b "1.0".
+
+  Ltac same := right; reflexivity.
+
   Lemma helpers_meet_reference e h args : env_quads e -> meets e h args.
   Proof.
-    intro He. unfold meets. destruct Hconv as [Hm Hs].
-    destruct h; cbn [spec_call];
-      try (right; reflexivity);
-      destruct args as [|a0 args]; try (right; reflexivity);
-      destruct a0 as [| | | |s0]; try (right; reflexivity).
+    intro He. unfold meets. destruct Hconv as [Hm Hs]. destruct h.
     - (* dnsDomainIs *)
-      destruct args as [|a1 args]; [right; reflexivity|]. destruct a1 as [| | | |s1]; try (right; reflexivity).
-      destruct args; [|right; reflexivity]. right. cbn [call_helper]. rewrite dnsDomainIs_is_suffix. reflexivity.
+      destruct args as [|[| | | |s0] [|[| | | |s1] [|]]]; cbn [spec_call]; try same.
+      right. cbn [call_helper]. rewrite dnsDomainIs_is_suffix. reflexivity.
     - (* dnsDomainLevels *)
-      destruct args; [|right; reflexivity]. right. cbn [call_helper]. rewrite levels_count_dots. reflexivity.
+      destruct args as [|[| | | |s0] [|]]; cbn [spec_call]; try same.
+      right. cbn [call_helper]. rewrite levels_count_dots. reflexivity.
     - (* isPlainHostName *)
-      destruct args; [|right; reflexivity]. right. cbn [call_helper]. rewrite plain_no_dot_colon. reflexivity.
+      destruct args as [|[| | | |s0] [|]]; cbn [spec_call]; try same.
+      right. cbn [call_helper]. rewrite plain_no_dot_colon. reflexivity.
     - (* localHostOrDomainIs *)
-      destruct args as [|a1 args]; [right; reflexivity|]. destruct a1 as [| | | |s1]; try (right; reflexivity).
-      destruct args; right; reflexivity.
+      destruct args as [|[| | | |s0] [|[| | | |s1] [|]]]; cbn [spec_call]; same.
     - (* shExpMatch *)
-      destruct args as [|a1 args]; [right; reflexivity|]. destruct a1 as [| | | |s1]; try (right; reflexivity).
-      destruct args; [|right; reflexivity].
+      destruct args as [|[| | | |s0] [|[| | | |s1] [|]]]; cbn [spec_call]; try same.
       destruct (glob_domain s0 s1) eqn:Ed; [right|left; reflexivity].
       cbn [call_helper]. rewrite (shexp_is_glob s0 s1 Hrw Han Ed). destruct (glob s1 s0); reflexivity.
     - (* isInNet *)
-      destruct args as [|a1 args]; [right; reflexivity|]. destruct a1 as [| | | |s1]; try (right; reflexivity).
-      destruct args as [|a2 args]; [right; reflexivity|]. destruct a2 as [| | | |s2]; try (right; reflexivity).
-      destruct args; [|right; reflexivity]. right. cbn [call_helper].
-      rewrite (isInNet_is_mask Hmax Hm Hs e s0 s1 s2 He). reflexivity.
+      destruct args as [|[| | | |s0] [|[| | | |s1] [|[| | | |s2] [|]]]]; cbn [spec_call]; try same.
+      right. cbn [call_helper]. rewrite (isInNet_is_mask Hmax Hm Hs e s0 s1 s2 He). reflexivity.
     - (* isResolvable *)
-      destruct args; [|right; reflexivity]. right. cbn [call_helper]. rewrite isResolvable_spec. reflexivity.
+      destruct args as [|[| | | |s0] [|]]; cbn [spec_call]; try same.
+      right. cbn [call_helper]. rewrite isResolvable_spec. reflexivity.
     - (* dnsResolve *)
-      destruct args; [|right; reflexivity]. right. cbn [call_helper]. rewrite dnsResolve_spec. reflexivity.
+      destruct args as [|[| | | |s0] [|]]; cbn [spec_call]; try same.
+      right. cbn [call_helper]. rewrite dnsResolve_spec. reflexivity.
+    - (* myIpAddress *)
+      destruct args as [|a0 args]; cbn [spec_call]; [|same].
+      right. cbn [call_helper]. unfold myIpAddress. rewrite Hmyip. destruct (e_myip e); reflexivity.
+    - (* isResolvableEx *) destruct args as [|a0 [|]]; cbn [spec_call]; same.
+    - (* isInNetEx *) destruct args as [|a0 [|a1 [|]]]; cbn [spec_call]; same.
+    - (* dnsResolveEx *) destruct args as [|a0 [|]]; cbn [spec_call]; same.
+    - (* myIpAddressEx *) destruct args; cbn [spec_call]; same.
+    - (* sortIpAddressList *) destruct args as [|a0 [|]]; cbn [spec_call]; same.
+    - (* getClientVersion *)
+      destruct args as [|a0 args]; cbn [spec_call]; [|same].
+      right. cbn [call_helper]. rewrite Hver. reflexivity.
   Qed.
 
   Lemma script_meets_reference e url host t :
@@ -74,15 +86,20 @@ Section All.
         destruct (truthy v); assumption.
   Qed.
 
+  Hypothesis Hres : result_string_checked = true /\ result_ascii_checked = true.
+  Hypothesis Hboth : entry_both_is_error = true.
+
   (* the whole evaluation: entry-point rule, script, result checks *)
   Lemma find_proxy_meets_reference e has_fn has_fnx t url hostname url_hostname :
     env_quads e ->
-    find_proxy (spec_call e) has_fn has_fnx t url hostname url_hostname = Some PacOutside \/
+    spec_find_proxy e has_fn has_fnx t url hostname url_hostname = Some PacOutside \/
     find_proxy (call_helper e) has_fn has_fnx t url hostname url_hostname =
-    find_proxy (spec_call e) has_fn has_fnx t url hostname url_hostname.
+    spec_find_proxy e has_fn has_fnx t url hostname url_hostname.
   Proof.
-    intro He. unfold find_proxy. destruct (entry_point has_fn has_fnx); try (right; reflexivity);
+    intro He. destruct Hres as [Hr1 Hr2]. unfold find_proxy, spec_find_proxy, entry_point. rewrite Hboth.
+    destruct has_fn, has_fnx; cbn [xorb]; try (right; reflexivity);
       destruct (script_meets_reference e url (effective_host hostname url_hostname) t He) as [Ho|Eq];
-      try (left; rewrite Ho; reflexivity); right; rewrite Eq; reflexivity.
+      try (left; rewrite Ho; reflexivity); right; rewrite Eq;
+      rewrite (check_result_spec _ Hr1 Hr2); reflexivity.
   Qed.
 End All.
